@@ -101,12 +101,12 @@ package cmd
 
 // leader API server: tables service <- tables.token, maintenance (backup) service <- maintenance.token
 //@ func leader$3
-//@   before regattapb.RegisterTablesServer assert [C17.reg.tables] typeIs(srv, *regattaserver.TablesServer) && asType(srv, *regattaserver.TablesServer).AuthFunc != nil && asType(srv, *regattaserver.TablesServer).AuthFunc.tok == cfgStr("tables.token")
+//@   before regattapb.RegisterTablesServer assert [C17.reg.tables+C16] typeIs(srv, *regattaserver.TablesServer) && asType(srv, *regattaserver.TablesServer).AuthFunc != nil && asType(srv, *regattaserver.TablesServer).AuthFunc.tok == cfgStr("tables.token")
 //@   before regattapb.RegisterMaintenanceServer assert [C17.reg.maintenance] typeIs(srv, *regattaserver.BackupServer) && asType(srv, *regattaserver.BackupServer).AuthFunc != nil && asType(srv, *regattaserver.BackupServer).AuthFunc.tok == cfgStr("maintenance.token")
 //@   modifies nothing
 
 // follower API server: maintenance (reset) service <- maintenance.token, read-only tables service <- tables.token
 //@ func follower$4
-//@   before regattapb.RegisterTablesServer assert [C17.reg.tables] typeIs(srv, *regattaserver.ReadonlyTablesServer) && asType(srv, *regattaserver.ReadonlyTablesServer).TablesServer.AuthFunc != nil && asType(srv, *regattaserver.ReadonlyTablesServer).TablesServer.AuthFunc.tok == cfgStr("tables.token")
+//@   before regattapb.RegisterTablesServer assert [C17.reg.tables+C16] typeIs(srv, *regattaserver.ReadonlyTablesServer) && asType(srv, *regattaserver.ReadonlyTablesServer).TablesServer.AuthFunc != nil && asType(srv, *regattaserver.ReadonlyTablesServer).TablesServer.AuthFunc.tok == cfgStr("tables.token")
 //@   before regattapb.RegisterMaintenanceServer assert [C17.reg.maintenance] typeIs(srv, *regattaserver.ResetServer) && asType(srv, *regattaserver.ResetServer).AuthFunc != nil && asType(srv, *regattaserver.ResetServer).AuthFunc.tok == cfgStr("maintenance.token")
 //@   modifies nothing
